@@ -190,6 +190,20 @@ package casketfile
 //@   ensures [known_iff_listed] p.validDirectives != nil ==> (result == exists(k, 0, len(p.validDirectives), p.validDirectives[k] == dir))
 //@   loop 1 invariant 0 <= #i && #i <= len(p.validDirectives) && forall(k, 0, #i, p.validDirectives[k] != dir)
 
+//@ unit env_references frames=on props=C10 filter=`casketfile\.replaceEnvReferences$`
+//@ // Environment references ({$NAME}, {%NAME%}) are expanded until none is left that could be: when the function returns,
+//@ // the first place where a reference starts either does not exist, or is not closed, or has an empty name (the form the
+//@ // function deliberately leaves alone). A single left-to-right pass that skips over text cannot promise this.
+//@ use @verif/specs/stdlib.spec:stdlib
+//@ extern strings.Replace
+//@   pure
+//@ extern os.Getenv
+//@   pure
+//@ define first(r string) int = strings.Index(r, refStart)
+//@ func replaceEnvReferences
+//@   ensures [no_expandable_reference_left_at_the_front] first(result) == -1 || strings.Index(result[first(result):], refEnd) == -1 || strings.Index(result[first(result):], refEnd) <= len(refStart)
+//@   loop 1 invariant index == strings.Index(s, refStart)
+
 //@ unit lexer_next frames=on props=C10,C09 filter=`casketfile\.lexer\)\.next$`
 //@ ghost remaining int
 //@ // ghost: number of line feeds the reader has handed out so far (advanced by the ReadRune contract only)
